@@ -2,7 +2,8 @@
 
 Engine A with the REAL NextLayer addon in the hook chain: the real top layers HttpProxy (after a CONNECT),
 TransparentProxy, ReverseProxy and Socks5Proxy are fed generated first flights -- TLS ClientHello (vf/ref/tlshello.py)
-with/without SNI, HTTP/1 requests with Host header spellings (no OWS, tabs, trailing OWS, any case, explicit port,
+with/without SNI, optionally followed in the same flight by a ChangeCipherSpec record and 0-2 application-data records
+(TLS 1.3 0-RTT style; for these mostly SNI-decisive rules, the address matching no pattern), HTTP/1 requests with Host header spellings (no OWS, tabs, trailing OWS, any case, explicit port,
 decoy fields, bare-LF lines), opaque bytes -- followed by random payload, while a scripted server peer sends random
 payload the other way; ignore_hosts / allow_hosts are set through the option manager (NextLayer.configure sees them).
 First flights are delivered whole, in 1-byte steps after the first 3 bytes, at single split points and randomly cut
@@ -37,7 +38,7 @@ WORKERS = {"quick": 4, "thorough": 16}
 REQUIRED = ["decision", "decision.excluded", "decision.not_excluded", "no_intercept", "transparent", "intercepted", "tls_hook_passthrough", "mode.regular", "mode.transparent", "mode.reverse", "mode.socks5"]
 TECHNIQUE = "runtime monitoring: real NextLayer addon + mode layers on the sans-io driver, independent host-rule oracle, end-to-end byte comparison"
 RULE = (
-    "case = (mode, server address, first flight [TLS hello +-SNI | HTTP request with Host spelling | opaque], ignore/allow regex set derived from "
+    "case = (mode, server address, first flight [TLS hello +-SNI (+ CCS and early-data records) | HTTP request with Host spelling | opaque], ignore/allow regex set derived from "
     "the names in play (exact, anchored, sub-domain, wrong port, near miss, catch-all), payloads, EOFs) executed under whole / 3+1-byte / split / "
     "random segmentations and random hook completion; signature = (mode, flight kind, Host spelling features, option kind, which candidates "
     "match, which are decisive, reference decision); non-trivial iff a regex is configured (every regex is derived from a name in play, so it "
@@ -153,6 +154,7 @@ def gen_case(r):
     kind = r.choice(["tls", "tls", "http", "http", "http", "other"])
     sni = host = None
     feats = []
+    hello_end, rec_bounds, sni_only = None, [], False
     idn_connect = mode == "regular" and "xn--" in addr_host.lower()
     if idn_connect:
         # the CONNECT target is an IDNA A-label: kept apart from the Host/SNI workload (address is the only candidate)
@@ -168,6 +170,22 @@ def gen_case(r):
         feats.append("sni" if sni else "no-sni")
         if cuts:
             feats.append("two-records")
+        hello_end = len(flight)
+        rec_bounds = [5 + cuts[0]] if cuts else []
+        if not idn_connect and r.random() < 0.4:
+            # TLS 1.3-style flight: ClientHello, then (same stream, no waiting for the server) a ChangeCipherSpec record and
+            # 0-2 application-data records (0-RTT early data) -- non-handshake records after a complete hello
+            flight += b"\x14\x03\x03\x00\x01\x01"
+            rec_bounds.append(len(flight))
+            for _ in range(r.choice([0, 1, 1, 2])):
+                body = bytes(r.randrange(256) for _ in range(r.choice([1, 17, 60, 150])))
+                flight += b"\x17\x03\x03" + len(body).to_bytes(2, "big") + body
+                rec_bounds.append(len(flight))
+            feats.append("tls13-trailing-records")
+            if sni and r.random() < 0.75:
+                # SNI-decisive rules: an address no pattern is derived from, so only the SNI candidate can match
+                addr_host = r.choice(["10.1.2.3", "192.168.0.7"])
+                sni_only = True
     elif kind == "http":
         k = r.random()
         host = None if k < 0.12 else (addr_host if k < 0.4 else r.choice(NAMES))
@@ -178,12 +196,23 @@ def gen_case(r):
         if flight[:1] == b"\x16" or re.match(rb"[A-Za-z]{3,}", flight) and b"HTTP/" in flight:
             flight = b"\x00" + flight
     names = [addr_host] + ([sni] if sni else []) + ([ref.split_host_port(host)[0]] if host else [])
+    if sni_only:
+        names = [sni]
     optkind = r.choice(["ignore", "ignore", "ignore", "allow", "allow", "both", "none"])
     ignore = gen_patterns(r, names, port) if optkind in ("ignore", "both") else []
     allow = gen_patterns(r, names, port) if optkind in ("allow", "both") else []
+    if sni_only:
+        # keep only patterns that cannot match the numeric address (catch-alls / port-only patterns would let it decide)
+        addr_s = f"{addr_host}:{port}"
+        ignore = [p for p in ignore if not re.search(p, addr_s, re.IGNORECASE)]
+        allow = [p for p in allow if not re.search(p, addr_s, re.IGNORECASE)]
+        if optkind in ("ignore", "both") and not ignore:
+            ignore = [f"^{esc(sni)}:"]
+        if optkind in ("allow", "both") and not allow:
+            allow = [f"^{esc(sni)}:{port}$"]
     tls_hook = kind == "tls" and r.random() < 0.15 and mode != "reverse"
     return {
-        "mode": mode, "scheme": scheme, "addr": (addr_host, port), "kind": kind, "sni": sni, "host": host, "flight": flight, "feats": feats,
+        "mode": mode, "scheme": scheme, "hello_end": hello_end, "rec_bounds": rec_bounds, "addr": (addr_host, port), "kind": kind, "sni": sni, "host": host, "flight": flight, "feats": feats,
         "ignore": ignore, "allow": allow, "optkind": optkind, "tls_hook": tls_hook,
         "strategy": r.choice(["eager", "lazy"]),
         "client_payload": bytes(r.randrange(256) for _ in range(r.choice([0, 1, 40, 200]))),
@@ -356,6 +385,11 @@ def run(ctx):
             if pts:
                 k = 4 if ctx.tier == "quick" else (len(pts) if n <= 150 else 30)
                 variants += [(p, r.choice(["fifo", "random"])) for p in (pts if k >= len(pts) else r.sample(pts, k))]
+            if spec["hello_end"] and spec["hello_end"] < n:
+                # TLS 1.3-style flight: hello alone / last hello fragment together with the next record / cuts inside the trailing records
+                he = spec["hello_end"]
+                extra = {he, he + 1, he + 5, r.randrange(he, n)} | set(spec["rec_bounds"]) | {b - 1 for b in spec["rec_bounds"]}
+                variants += [(p, r.choice(["fifo", "random"])) for p in sorted(extra) if 3 <= p < n]
             nvar = 0
             for seg, sched in variants:
                 try:
